@@ -1689,7 +1689,8 @@ def _cmp_frames_with_tokens(read, blocks, clause_prefix, kind):
             k = fr["kinds"][j]
             if numeric:
                 if k not in ("int", "float"):
-                    out.append(dict(kind=kind, clause=clause_prefix + "-numeric-column-as-text", detail=f"block {bi} column {c}: tokens {toks[:4]} read as {k} ({fr.get('dtypes', ['?'] * (j + 1))[j]})")); continue
+                    out.append(dict(kind=kind, clause=clause_prefix + "-numeric-column-as-text", detail=f"block {bi} column {c}: tokens {toks[:4]} read as {k} ({fr.get('dtypes', ['?'] * (j + 1))[j]})",
+                                    k5_class=bool(_k5_column(toks)))); continue  # the class of C02-K5 decided on the very column judged
                 # G3: integer vs float typing -- a column of integer tokens [+-]?d+ is integer-typed, any other numeric column float
                 # (model `isIntTok` / `blockInts`; the harness's own regex; the implementation's dtype): always a correspondence matter
                 all_int = all(INT_RE.match(t) for t in toks)
@@ -2286,6 +2287,9 @@ def _k5_column(toks):
 def classify(case, obs, finding):
     if case["kind"] in ("read", "malformed") and finding["clause"] in ("read-numeric-column-as-text", "read-vs-model-numeric-column-as-text"):
         # C02-K5 (both the statement's verdict and the disagreement with the statement-faithful model on the same column)
+        if finding.get("k5_class"):
+            return "C02-K5"  # decided by the judge on the full token list of the column it compared (also for damaged texts whose
+            # surviving blocks the reader, the model and the reference tokenizer still agree on: sweep seed 412)
         m = re.match(r"block (\d+) column (.*?): tokens ", finding.get("detail", ""))
         ind = indep_parse(render_read(case))
         if m and not isinstance(ind, str) and int(m.group(1)) < len(ind):
